@@ -3,8 +3,10 @@ session windows).
 
 Pattern (see tools/BUILDER_GUIDE.md): exhaustive model check of the implementation-shaped window
 models with the property predicates (spec/comp/WindowProps.tla) as invariants + vacuity guard;
-`*_finding.cfg` configs that must STILL fail for the known defects; behaviour generation with TLC
-(exhaustive small scope + simulation); every behaviour is executed on the REAL window managers by
+`*_finding.cfg` configs that must STILL fail for the known defects (open: F3, F5; fixed, kept as
+regression documentation: F4, F7); behaviour generation with TLC (the quick configs of spec/mc
+model check AND print their behaviours in one run; thorough adds spec/gen configs; simulation for
+larger constants); every behaviour is executed on the REAL window managers by
 harness-win (`vhw run`: directly through WindowDescription::build / WindowManager::process, and
 through WindowOperator in a real single-block job); TLC (spec/trace/WindowCheck.tla) evaluates
 the predicates on the real outputs.  Python only moves data.
@@ -20,13 +22,17 @@ import time
 from concurrent.futures import ThreadPoolExecutor
 
 from common import (ToolError, log, workdir, seed, tlc_check, require_coverage, SPEC, ROOT, NPROC,
-                    split_trace_files, validate_parallel)
+                    split_trace_files)
 
 CRATE = os.environ.get("VERIF_WIN_CRATE") or os.path.join(ROOT, "harness-win")
 VHW = os.path.join(CRATE, "target", "debug", "vhw")
 # development aid (mutation testing of the checks): skip the model checks, which do not depend on
 # /repo, and reuse generated behaviours from work/win/gencache.  Never set in a real run.
 FAST = os.environ.get("VERIF_WIN_FAST") == "1"
+# quick tier: the TLC runs are short, so JVM start-up dominates their CPU cost; fewer GC threads
+# and the C1 compiler only make a short run markedly cheaper (a long run slower: thorough tier
+# keeps the JVM defaults)
+QUICK_JVM = {"JAVA_TOOL_OPTIONS": "-XX:ParallelGCThreads=2 -XX:TieredStopAtLevel=1"}
 
 
 # ------------------------------------------------------------------------------------------------
@@ -52,16 +58,14 @@ def cfg_constants(path):
     return out
 
 
-def extra_known(V):
-    """Development aid: VERIF_WIN_KNOWN=<file> adds proposed findings to the known list."""
-    p = os.environ.get("VERIF_WIN_KNOWN")
-    if p and os.path.exists(p):
-        with open(p) as f:
-            V.known = list(V.known) + json.load(f).get("findings", [])
-
-
 def mc(module, cfg, actions):
     return {"what": "mc", "module": module, "cfg": cfg, "actions": actions}
+
+
+def mcgen(module, cfg, actions):
+    """One TLC run that model checks (invariants + coverage guard) AND prints every complete
+    behaviour (EmitReplay): the quick configs of spec/mc do both."""
+    return {"what": "mcgen", "module": module, "cfg": cfg, "actions": actions}
 
 
 def finding(module, cfg, invariant):
@@ -73,36 +77,47 @@ def gen(module, cfg, simulate=None, depth=120):
 
 
 def _gen_cache(j):
-    return os.path.join(ROOT, "work", "win", "gencache", f"{j['cfg']}_{j['simulate']}_{seed()}.json")
+    return os.path.join(ROOT, "work", "win", "gencache", f"{j['cfg']}_{j.get('simulate')}_{seed()}.json")
 
 
 def _run_tlc_job(args):
-    j, wd, timeout = args
+    j, wd, timeout, jvm = args
     spec = f"{SPEC}/comp/{j['module']}.tla"
     if j["what"] == "gen":
         if FAST and os.path.exists(_gen_cache(j)):
             with open(_gen_cache(j)) as f:
                 return {"replays": json.load(f), "cached": True, "ok": True}
         sim = j["simulate"]
-        return tlc_check(spec, f"{SPEC}/gen/{j['cfg']}.cfg", wd, j["cfg"], workers=4, coverage=False,
-                         timeout=timeout, xmx="3g", simulate=f"num={sim}" if sim else None,
+        return tlc_check(spec, f"{SPEC}/gen/{j['cfg']}.cfg", wd, j["cfg"], workers=2 if sim else 3, coverage=False,
+                         timeout=timeout, xmx="3g", env_extra=jvm, simulate=f"num={sim}" if sim else None,
                          extra=["-depth", str(j["depth"]), "-seed", str(seed())] if sim else None)
-    if FAST:
+    if j["what"] == "mcgen" and FAST and os.path.exists(_gen_cache(j)):
+        with open(_gen_cache(j)) as f:
+            return {"replays": json.load(f), "cached": True, "ok": True}
+    if FAST and j["what"] != "mcgen":
         return None
-    return tlc_check(spec, f"{SPEC}/mc/{j['cfg']}.cfg", wd, j["cfg"], workers=4, timeout=timeout, xmx="3g")
+    return tlc_check(spec, f"{SPEC}/mc/{j['cfg']}.cfg", wd, j["cfg"],
+                     workers=2 if j["what"] == "finding" else (3 if jvm else 5), timeout=timeout,
+                     xmx="3g" if jvm else "6g", env_extra=jvm)
 
 
 def run_tlc(V, wd, jobs, timeout=1500):
     """Run the model checks, the finding configs and the behaviour generation (independent TLC runs,
-    four at a time) and account for them.  Returns {gen cfg: behaviours}."""
-    with ThreadPoolExecutor(max_workers=4) as ex:
-        results = list(ex.map(_run_tlc_job, [(j, wd, timeout) for j in jobs]))
+    at most six at a time) and account for them.  Returns {cfg: behaviours}."""
+    t0 = time.time()
+    jvm = QUICK_JVM if V.tier == "quick" else None
+    with ThreadPoolExecutor(max_workers=6) as ex:
+        results = list(ex.map(_run_tlc_job, [(j, wd, timeout, jvm) for j in jobs]))
+    V.coverage.setdefault("phase_s", {})["tlc_model_and_generation"] = round(time.time() - t0, 1)
     behs = {}
     for j, r in zip(jobs, results):
         cfg = j["cfg"]
         if r is None:
             continue
-        if j["what"] == "mc":
+        if j["what"] == "mcgen" and r.get("cached"):
+            behs[cfg] = r["replays"]
+            continue
+        if j["what"] in ("mc", "mcgen"):
             if not r["ok"]:
                 tail = "\n".join(l for l in r["out"].splitlines() if "MODELVIOL" in l)[:1500]
                 raise ToolError(f"model check {cfg}: invariant {r['invariant_violated']} fails on the MODEL; "
@@ -110,6 +125,15 @@ def run_tlc(V, wd, jobs, timeout=1500):
             require_coverage(r, j["actions"], cfg)
             V.add_model(r, cfg)
             V.coverage.setdefault("constants", {})[cfg] = cfg_constants(f"{SPEC}/mc/{cfg}.cfg")
+            if j["what"] == "mcgen":
+                if not r["replays"]:
+                    raise ToolError(f"{cfg} produced no behaviour")
+                V.coverage.setdefault("behaviours_generated", {})[cfg] = len(r["replays"])
+                if FAST:
+                    os.makedirs(os.path.dirname(_gen_cache(j)), exist_ok=True)
+                    with open(_gen_cache(j), "w") as f:
+                        json.dump(r["replays"], f)
+                behs[cfg] = r["replays"]
         elif j["what"] == "finding":
             # a carve-out must not silently widen: the finding config must still give the counterexample
             still = r["invariant_violated"] == j["invariant"]
@@ -199,8 +223,30 @@ def run_vhw(cases, wd, nproc=4, timeout=600):
     return results
 
 
-def judge(V, wd, cases, results):
-    """TLC evaluates the WindowProps predicates on the real outputs of every case."""
+def validate(files, wd, nproc, jvm, timeout=900):
+    """common.validate_parallel with JVM options for the quick tier."""
+    from common import tlc_trace
+    viols, consumed, states, infos = [], 0, 0, []
+
+    def one(i_f):
+        return tlc_trace("WindowCheck", i_f[1], wd, f"WindowCheck_{i_f[0]}", timeout=timeout, env_extra=jvm)
+
+    with ThreadPoolExecutor(max_workers=max(1, min(nproc, len(files) or 1))) as ex:
+        for v, c, st, inf in ex.map(one, list(enumerate(files))):
+            viols.extend(v)
+            consumed += c
+            states += st["states"]
+            infos.extend(inf)
+    return viols, consumed, states, infos
+
+
+def judge(V, wd, cases, results, only_prop=None, nchunks=None):
+    """TLC evaluates the WindowProps predicates on the real outputs of every case.  Records of
+    another property (the C06 by-product in C12-C14; everything but C06 in C06_windows) are
+    counted in the evidence, not reported."""
+    only_prop = only_prop or V.prop
+    nchunks = nchunks or (4 if V.tier == "quick" else NPROC)
+    t0 = time.time()
     recs = []
     by_id = {}
     for c in cases:
@@ -209,7 +255,7 @@ def judge(V, wd, cases, results):
             raise ToolError(f"vhw returned nothing for case {c['id']}")
         by_id[c["id"]] = c
         if r.get("panic") is not None:
-            V.add_violation({"prop": V.prop, "kind": "panic", "window": c["kind"], "path": c["path"],
+            V.add_violation({"prop": only_prop, "kind": "panic", "window": c["kind"], "path": c["path"],
                              "job": c["id"], "panic": str(r["panic"])[:300]},
                             replay={"case": c})
             continue
@@ -222,9 +268,10 @@ def judge(V, wd, cases, results):
         recs.append(rec)
         recs.append({"ev": "done", "id": c["id"]})
     ncases = len(recs) // 2
-    per = max(200, 2 * math.ceil(ncases / max(1, NPROC)))
+    per = max(200, 2 * math.ceil(ncases / max(1, nchunks)))
     files = split_trace_files(recs, wd, "wincheck", max_events=per)
-    viols, consumed, states, infos = validate_parallel("WindowCheck", files, wd, timeout=900)
+    viols, consumed, states, infos = validate(files, wd, nchunks, QUICK_JVM if V.tier == "quick" else None)
+    V.coverage.setdefault("phase_s", {})["tlc_judging_real_outputs"] = round(time.time() - t0, 1)
     if consumed != len(recs):
         raise ToolError(f"WindowCheck consumed {consumed} of {len(recs)} records")
     V.coverage["states"] += states
@@ -239,7 +286,12 @@ def judge(V, wd, cases, results):
                        f"(first: case {infos[0].get('drift')} window {infos[0].get('window')} p {infos[0].get('p')})")
         V.coverage["drift_example"] = infos[0]
     V.coverage["drift_cases"] = V.coverage.get("drift_cases", 0) + len(infos)
+    other = V.coverage.setdefault("records_of_other_properties", {})
     for v in viols:
+        if v.get("prop") != only_prop:
+            k = f"{v.get('prop')}/{v.get('kind')}/{v.get('cause')}"
+            other[k] = other.get(k, 0) + 1
+            continue
         c = by_id.get(v.get("job"))
         V.add_violation(v, replay={"case": {k: c[k] for k in ("id", "kind", "p", "path", "input")} if c else None,
                                    "real": v.get("extra", {}).get("out")})
@@ -262,81 +314,96 @@ def sample(rng, xs, n):
 
 def C12(V, tier):
     wd = workdir("C12")
-    extra_known(V)
     V.coverage["build_win_s"] = round(build_vhw(), 1)
     rng = random.Random(seed())
     quick = tier == "quick"
     acts = ["Feed", "EndIter", "Term"]
-    gen_cfg = "CountWindow_gen" if quick else "CountWindow_gen_thorough"
-    jobs = [mc("CountWindow", "CountWindow_quick", acts), mc("CountWindow", "CountWindow_keyed_quick", acts)]
+    # quick: model check and generation in ONE run per config; the single-key configs are replayed
+    # completely on the real manager (finite spaces, stated in the evidence)
+    full = ["CountWindow_quick", "CountWindow_quick2"]
+    jobs = [mcgen("CountWindow", c, acts) for c in full + ["CountWindow_keyed_quick"]]
+    jobs += [gen("CountWindow", "CountWindow_gen_sim", simulate=50 if quick else 1500)]
     if not quick:
         jobs += [mc("CountWindow", c, acts) for c in
                  ("CountWindow_thorough", "CountWindow_keyed_thorough", "CountWindow_keyed2_thorough")]
-    jobs += [gen("CountWindow", gen_cfg), gen("CountWindow", "CountWindow_gen_keyed"),
-             gen("CountWindow", "CountWindow_gen_timed"),
-             gen("CountWindow", "CountWindow_gen_sim", simulate=100 if quick else 3000)]
+        jobs += [gen("CountWindow", "CountWindow_gen_thorough"), gen("CountWindow", "CountWindow_gen_timed")]
+        full.append("CountWindow_gen_thorough")
     b = run_tlc(V, wd, jobs)
-    # R: the whole finite space (N, S, mode, len1, len2) on the real manager
-    behs = b[gen_cfg]
-    k = cfg_constants(f"{SPEC}/gen/{gen_cfg}.cfg")
-    nmax, lmax, iters = int(k["NMAX"]), int(k["LMAX"]), int(k["ITERS"])
-    expected = (nmax * (nmax + 1) // 2) * 2 * (lmax + 1) ** iters
-    cases = make_cases("c", behs, ["direct"])
-    # keyed interleavings through WindowOperator (real single-block jobs); timed inputs with watermarks
-    kb = b["CountWindow_gen_keyed"]
-    cases += make_cases("k", kb if not quick else sample(rng, kb, 800), ["keyed"])
-    cases += make_cases("s", sample(rng, behs, 200 if quick else 2000), ["keyed"])
-    cases += make_cases("t", b["CountWindow_gen_timed"], ["direct", "keyed"])
+    cases, spaces = [], []
+    for i, cfg in enumerate(full):
+        cases += make_cases(f"c{i}_", b[cfg], ["direct"])
+        k = cfg_constants(f"{SPEC}/{'gen' if 'gen' in cfg else 'mc'}/{cfg}.cfg")
+        nmax, lmax, iters = int(k["NMAX"]), int(k["LMAX"]), int(k["ITERS"])
+        spaces.append({"config": cfg, "N<=": nmax, "S": "1..N", "len": f"0..{lmax} per iteration",
+                       "iterations": iters, "modes": ["exact", "non-exact"],
+                       "cases_expected": (nmax * (nmax + 1) // 2) * 2 * (lmax + 1) ** iters,
+                       "cases_generated": len(b[cfg])})
+    # keyed interleavings through WindowOperator (real single-block jobs), library aggregators
+    kb = b["CountWindow_keyed_quick"]
+    single = [x for cfg in full for x in b[cfg]]
+    cases += make_cases("k", kb if not quick else sample(rng, kb, 500), ["keyed"])
+    cases += make_cases("s", sample(rng, single, 150 if quick else 2000), ["keyed"])
+    if not quick:
+        cases += make_cases("t", b["CountWindow_gen_timed"], ["direct", "keyed"])
     cases += make_cases("r", b["CountWindow_gen_sim"], ["keyed"])
-    cases += agg_cases("a", sample(rng, kb + behs, 500 if quick else 5000) + b["CountWindow_gen_sim"])
+    cases += agg_cases("a", sample(rng, kb + single, 300 if quick else 5000) + b["CountWindow_gen_sim"])
     results = run_vhw(cases, wd)
     judge(V, wd, cases, results)
-    direct_done = sum(1 for c in cases if c["id"].startswith("c") and results.get(c["id"], {}).get("panic") is None)
-    V.coverage["exhaustive_space"] = {"N<=": nmax, "S<=N": True, "len<=": lmax, "iterations": iters,
-                                      "modes": 2, "cases_expected": expected, "cases_run": direct_done}
-    V.coverage["exhaustive"] = (len(behs) == expected and direct_done == expected)
+    ok = True
+    for i, sp in enumerate(spaces):
+        sp["cases_run"] = sum(1 for c in cases if c["id"].startswith(f"c{i}_")
+                              and results.get(c["id"], {}).get("panic") is None)
+        ok = ok and sp["cases_expected"] == sp["cases_generated"] == sp["cases_run"]
+    V.coverage["exhaustive_spaces"] = spaces
+    V.coverage["exhaustive"] = ok
     V.assumptions += ["the collecting accumulator exposes exactly the elements a result was computed from",
-                      "direct path drives one manager the way WindowOperator drives the manager of one key"]
+                      "direct path drives one manager the way WindowOperator drives the manager of one key",
+                      "`exhaustive` refers to the (N, S, mode, lengths) spaces listed in exhaustive_spaces"]
 
 
 def C13(V, tier):
     wd = workdir("C13")
-    extra_known(V)
     V.coverage["build_win_s"] = round(build_vhw(), 1)
     rng = random.Random(seed())
     quick = tier == "quick"
     acts = ["Feed", "Wm", "EndIter", "Term"]
-    ev_gen = "EventTimeWindow_gen" if quick else "EventTimeWindow_gen_thorough"
-    jobs = [mc("EventTimeWindow", "EventTimeWindow_quick", acts),
-            mc("EventTimeWindow", "EventTimeWindow_keyed_quick", acts),
-            mc("TransactionWindow", "TransactionWindow_quick", acts),
-            mc("TransactionWindow", "TransactionWindow_quick2", ["Feed", "EndIter", "Term"]),
-            # F3 / F7: the main configs exclude exactly their input classes; these must still fail
+    jobs = [mcgen("EventTimeWindow", "EventTimeWindow_quick", acts),
+            mcgen("TransactionWindow", "TransactionWindow_quick", acts),
+            mcgen("TransactionWindow", "TransactionWindow_quick2", ["Feed", "EndIter", "Term"]),
+            # F3 (open): C13_All excuses exactly the loss of elements fed below the anchor; the
+            # unexcused predicate must still fail
             finding("EventTimeWindow", "EventTimeWindow_finding", "C13_Lost"),
-            finding("TransactionWindow", "TransactionWindow_finding", "C13_TxnQuiet")]
+            gen("EventTimeWindow", "EventTimeWindow_gen_sim", simulate=150 if quick else 2000),
+            gen("TransactionWindow", "TransactionWindow_gen_sim", simulate=50 if quick else 1500)]
     if not quick:
+        # F7 (fixed): the model of the code before the fix must still show the defect (regression
+        # documentation); two keys in the model (quick: keyed only on the real code, via simulation)
+        jobs += [finding("TransactionWindow", "TransactionWindow_finding", "C13_TxnQuiet"),
+                 mcgen("EventTimeWindow", "EventTimeWindow_keyed_quick", acts)]
         jobs += [mc("EventTimeWindow", c, acts) for c in
                  ("EventTimeWindow_thorough", "EventTimeWindow_thorough2", "EventTimeWindow_keyed_thorough")]
         jobs += [mc("TransactionWindow", c, acts) for c in
                  ("TransactionWindow_thorough", "TransactionWindow_thorough2", "TransactionWindow_keyed_thorough")]
-        jobs += [gen("EventTimeWindow", "EventTimeWindow_gen_keyed")]
-    jobs += [gen("EventTimeWindow", ev_gen),
-             gen("EventTimeWindow", "EventTimeWindow_gen_sim", simulate=150 if quick else 4000),
-             gen("TransactionWindow", "TransactionWindow_gen"), gen("TransactionWindow", "TransactionWindow_gen2"),
-             gen("TransactionWindow", "TransactionWindow_gen_sim", simulate=100 if quick else 3000)]
+        jobs += [gen("EventTimeWindow", "EventTimeWindow_gen_thorough"),
+                 gen("TransactionWindow", "TransactionWindow_gen_thorough")]
     b = run_tlc(V, wd, jobs)
     cases = []
-    eb = b[ev_gen]
-    cases += make_cases("e", eb if not quick else sample(rng, eb, 3000), ["direct"])
-    cases += make_cases("f", sample(rng, eb, 300 if quick else 3000), ["keyed"])
+    eb = b["EventTimeWindow_quick"]
+    cases += make_cases("e", eb if not quick else sample(rng, eb, 1800), ["direct"])
+    cases += make_cases("f", sample(rng, eb, 150 if quick else 3000), ["keyed"])
     if not quick:
-        cases += make_cases("k", b["EventTimeWindow_gen_keyed"], ["keyed"])
+        cases += make_cases("k", b["EventTimeWindow_keyed_quick"], ["keyed"])
     cases += make_cases("r", b["EventTimeWindow_gen_sim"], ["keyed"])
-    tb = b["TransactionWindow_gen"]
-    cases += make_cases("t", tb if not quick else sample(rng, tb, 1500), ["direct"])
-    cases += make_cases("u", sample(rng, tb, 200 if quick else 2000), ["keyed"])
-    cases += make_cases("v", b["TransactionWindow_gen2"], ["direct", "keyed"] if not quick else ["direct"])
+    tb = b["TransactionWindow_quick"]
+    cases += make_cases("t", tb if not quick else sample(rng, tb, 1000), ["direct"])
+    cases += make_cases("u", sample(rng, tb, 100 if quick else 2000), ["keyed"])
+    t2 = b["TransactionWindow_quick2"]
+    cases += make_cases("v", t2 if not quick else sample(rng, t2, 500), ["direct"])
+    cases += make_cases("x", sample(rng, t2, 100 if quick else 961), ["keyed"])
     cases += make_cases("w", b["TransactionWindow_gen_sim"], ["keyed"])
+    if not quick:
+        cases += make_cases("g", b["EventTimeWindow_gen_thorough"], ["direct"])
+        cases += make_cases("h", b["TransactionWindow_gen_thorough"], ["direct"])
     results = run_vhw(cases, wd)
     judge(V, wd, cases, results)
     V.assumptions += ["inputs respect the watermark contract (timestamp > last watermark); late elements are not generated",
@@ -346,29 +413,29 @@ def C13(V, tier):
 
 def C14(V, tier):
     wd = workdir("C14")
-    extra_known(V)
     V.coverage["build_win_s"] = round(build_vhw(), 1)
     rng = random.Random(seed())
     quick = tier == "quick"
     a3, a4 = ["Feed", "EndIter", "Term"], ["Feed", "Wm", "EndIter", "Term"]
     jobs = []
     for m in ("ProcTimeWindow", "SessionWindow"):
-        jobs += [mc(m, f"{m}_quick", a3), mc(m, f"{m}_quick2", a3), mc(m, f"{m}_quick3", a4)]
+        jobs += [mcgen(m, f"{m}_quick", a3), mcgen(m, f"{m}_quick2", a3),
+                 gen(m, f"{m}_gen_sim", simulate=60 if quick else 2000)]
     if not quick:
-        jobs += [mc("ProcTimeWindow", "ProcTimeWindow_thorough", a3), mc("ProcTimeWindow", "ProcTimeWindow_thorough2", a4),
-                 mc("SessionWindow", "SessionWindow_thorough", a3), mc("SessionWindow", "SessionWindow_thorough2", a4)]
-    for m in ("ProcTimeWindow", "SessionWindow"):
-        jobs += [gen(m, f"{m}_gen" if quick else f"{m}_gen_thorough"), gen(m, f"{m}_gen2"),
-                 gen(m, f"{m}_gen_sim", simulate=150 if quick else 4000)]
+        for m in ("ProcTimeWindow", "SessionWindow"):
+            jobs += [mc(m, f"{m}_wm_thorough", a4), mc(m, f"{m}_thorough", a3), mc(m, f"{m}_thorough2", a4),
+                     gen(m, f"{m}_gen_thorough")]
     b = run_tlc(V, wd, jobs)
     cases = []
     for m, tag in (("ProcTimeWindow", "p"), ("SessionWindow", "s")):
-        b1 = b[f"{m}_gen" if quick else f"{m}_gen_thorough"]
-        cases += make_cases(tag + "a", b1, ["direct"])
-        cases += make_cases(tag + "b", sample(rng, b1, 300 if quick else 3000), ["keyed"])
-        b2 = b[f"{m}_gen2"]
-        cases += make_cases(tag + "c", b2 if not quick else sample(rng, b2, 600), ["keyed"])
+        b1 = b[f"{m}_quick"]
+        cases += make_cases(tag + "a", b1 if not quick else sample(rng, b1, 1500), ["direct"])
+        cases += make_cases(tag + "b", sample(rng, b1, 150 if quick else 3000), ["keyed"])
+        b2 = b[f"{m}_quick2"]
+        cases += make_cases(tag + "c", b2 if not quick else sample(rng, b2, 400), ["keyed"])
         cases += make_cases(tag + "d", b[f"{m}_gen_sim"], ["keyed"])
+        if not quick:
+            cases += make_cases(tag + "e", b[f"{m}_gen_thorough"], ["direct"])
     results = run_vhw(cases, wd)
     judge(V, wd, cases, results)
     V.assumptions += ["wall-clock windows are judged under the mock clock only (renoir::verif::set_mock_clock, "
@@ -377,18 +444,160 @@ def C14(V, tier):
 
 
 def C06_windows(V, tier):
-    """By-product for the owner of C06: watermark safety at the output of the window operators
-    (WindowCheck emits prop "C06" records; with V.prop == "C06" they count).  Expected on the
-    unchanged tree: findings F4 (event time) and F5 (count, non exact)."""
+    """For the owner of C06: watermark safety at the output of the window operators (WindowCheck's
+    prop "C06" records; only those are reported).  On the current tree: finding F5 (count, non
+    exact, open); F4 (event time) is fixed - EventTimeWindow_finding_c06 documents the regression."""
     wd = workdir("C06win")
-    extra_known(V)
     build_vhw()
-    b = run_tlc(V, wd, [finding("EventTimeWindow", "EventTimeWindow_finding_c06", "C06_LateResult"),
-                        finding("CountWindow", "CountWindow_finding", "C06_LateResult"),
-                        gen("EventTimeWindow", "EventTimeWindow_gen"), gen("CountWindow", "CountWindow_gen_timed"),
-                        gen("EventTimeWindow", "EventTimeWindow_gen_sim", simulate=300 if tier == "quick" else 3000)])
+    quick = tier == "quick"
+    jobs = [mcgen("EventTimeWindow", "EventTimeWindow_c06_quick", ["Feed", "Wm", "EndIter", "Term"]),
+            finding("CountWindow", "CountWindow_finding", "C06_LateResult"),     # F5, open
+            gen("CountWindow", "CountWindow_gen_timed")]
+    if not quick:
+        jobs += [finding("EventTimeWindow", "EventTimeWindow_finding_c06", "C06_LateResult"),  # F4, fixed
+                 gen("EventTimeWindow", "EventTimeWindow_gen_sim", simulate=1500)]
+    b = run_tlc(V, wd, jobs)
     rng = random.Random(seed())
-    cases = make_cases("e", sample(rng, b["EventTimeWindow_gen"], 3000), ["direct", "keyed"])
+    eb = b["EventTimeWindow_c06_quick"]
+    cases = make_cases("e", eb if not quick else sample(rng, eb, 700), ["direct"])
+    cases += make_cases("f", sample(rng, eb, 150 if quick else 2000), ["keyed"])
     cases += make_cases("t", b["CountWindow_gen_timed"], ["direct", "keyed"])
-    cases += make_cases("r", b["EventTimeWindow_gen_sim"], ["keyed"])
-    judge(V, wd, cases, run_vhw(cases, wd))
+    if not quick:
+        cases += make_cases("r", b["EventTimeWindow_gen_sim"], ["keyed"])
+    judge(V, wd, cases, run_vhw(cases, wd), only_prop="C06", nchunks=2 if quick else None)
+
+
+# ------------------------------------------------------------------------------------------------
+# C05 at the window operators (called from the C05 check)
+
+def _iterations(inp):
+    """[(first index, index of the FlushAndRestart)] of every completed iteration (0-based)."""
+    its, a = [], 0
+    for i, e in enumerate(inp):
+        if e["k"] == "R":
+            its.append((a, i))
+            a = i + 1
+    return its
+
+
+def _c05_cases(tag, behs, paths):
+    """Multi-iteration cases plus, per iteration i >= 2, the same iteration ALONE for a fresh
+    instance (the metamorphic oracle of `carry_over`).  The direct path drives one manager, so a
+    behaviour with several keys is projected key by key (its data + every control element)."""
+    term = None
+    cases, solos = [], {}
+    for i, b in enumerate(behs):
+        its = _iterations(b["input"])
+        if len(its) < 2:
+            continue
+        term = term or next(e for e in b["input"] if e["k"] == "X")
+        for path in paths:
+            variants = [("", b["input"])]
+            ks = keys_of(b)
+            if path == "direct":
+                variants = [(f"_{k}", [e for e in b["input"] if e["k"] not in ("I", "T") or e["key"] == k])
+                            for k in ks] if len(ks) > 1 else variants
+            for suffix, inp in variants:
+                cid = f"{tag}{i}{path[0]}{suffix}"
+                cases.append({"id": cid, "kind": b["kind"], "p": b["p"], "path": path, "input": inp})
+                solos[cid] = []
+                for n, (a, r) in enumerate(_iterations(inp)):
+                    if n == 0:
+                        continue
+                    sid = f"{cid}#{n + 1}"
+                    last = dict(term, tick=inp[r].get("tick", 0))
+                    cases.append({"id": sid, "kind": b["kind"], "p": b["p"], "path": path,
+                                  "input": inp[a:r + 1] + [last]})
+                    solos[cid].append((n + 1, sid))
+    return cases, solos
+
+
+def C05_windows(V, tier):
+    """C05 'the stateful operators output all results of an iteration before forwarding its
+    FlushAndRestart and carry nothing over into the next iteration', at the five window managers
+    (direct path) and at WindowOperator (keyed path, probe order).  TLC (WindowCheck, ev "c05")
+    judges the real outputs: output_after_restart, carry_over (iteration i of the full run = the
+    same real component on iteration i alone, plus the WindowProps verdicts that a result mixes
+    iterations).  Only prop "C05" records are reported; F3 / F5 are no carry-over."""
+    wd = workdir("C05win")
+    build_vhw()
+    quick = tier == "quick"
+    rng = random.Random(seed())
+    a3, a4 = ["Feed", "EndIter", "Term"], ["Feed", "Wm", "EndIter", "Term"]
+    # 2 iterations, leftovers pending at the end of an iteration by construction: count lengths not
+    # aligned to size/slide, open event-time slots (no watermark), transactions with and without
+    # commit time, wall-clock slots / sessions still open under the mock clock
+    jobs = [mcgen("CountWindow", "CountWindow_keyed_quick", a3),
+            mcgen("EventTimeWindow", "EventTimeWindow_iter_quick", a3),
+            mcgen("TransactionWindow", "TransactionWindow_quick2", a3),
+            mcgen("ProcTimeWindow", "ProcTimeWindow_quick2", a3),
+            mcgen("SessionWindow", "SessionWindow_quick2", a3),
+            # event time with watermarks in every iteration (a slot left over from iteration i is
+            # fired by a watermark of iteration i+1): sampled from larger constants
+            gen("EventTimeWindow", "EventTimeWindow_gen_sim", simulate=150 if quick else 600)]
+    if not quick:
+        # 2-3 iterations, two or three keys, watermarks, larger constants
+        jobs += [gen(m, f"{m}_gen_sim", simulate=600) for m in
+                 ("CountWindow", "TransactionWindow", "ProcTimeWindow", "SessionWindow")]
+        jobs += [mcgen("CountWindow", "CountWindow_quick2", a3)]
+    b = run_tlc(V, wd, jobs)
+    cases, solos = [], {}
+    n = 250 if quick else 3000
+    for tag, cfg in (("c", "CountWindow_keyed_quick"), ("e", "EventTimeWindow_iter_quick"),
+                     ("t", "TransactionWindow_quick2"), ("p", "ProcTimeWindow_quick2"),
+                     ("s", "SessionWindow_quick2"), ("E", "EventTimeWindow_gen_sim")):
+        multi = [x for x in b[cfg] if len(_iterations(x["input"])) >= 2 and keys_of(x)]
+        c, s = _c05_cases(tag, sample(rng, multi, n), ["direct", "keyed"])
+        cases += c
+        solos.update(s)
+    if not quick:
+        for tag, cfg in (("C", "CountWindow_gen_sim"),
+                         ("T", "TransactionWindow_gen_sim"), ("P", "ProcTimeWindow_gen_sim"),
+                         ("S", "SessionWindow_gen_sim"), ("D", "CountWindow_quick2")):
+            c, s = _c05_cases(tag, b[cfg], ["direct", "keyed"])
+            cases += c
+            solos.update(s)
+    results = run_vhw(cases, wd)
+    by_id = {c["id"]: c for c in cases}
+    recs = []
+    for cid, sl in solos.items():
+        c, r = by_id[cid], results[cid]
+        srs = [(it, results[sid]) for it, sid in sl]
+        if r.get("panic") is not None:
+            alone_ok = all(x.get("panic") is None for _, x in srs)
+            V.add_violation({"prop": "C05", "kind": "carry_over" if alone_ok else "panic", "cause": "panic",
+                             "window": c["kind"], "path": c["path"], "job": cid, "panic": str(r["panic"])[:300]},
+                            replay={"case": c})
+            continue
+        if any(x.get("panic") is not None for _, x in srs):
+            V.add_violation({"prop": "C05", "kind": "panic", "cause": "panic_on_iteration_alone",
+                             "window": c["kind"], "path": c["path"], "job": cid}, replay={"case": c})
+            continue
+        recs.append({"ev": "c05", "id": cid, "kind": c["kind"], "path": c["path"], "p": c["p"],
+                     "input": c["input"], "out": r["out"],
+                     "solo": [{"it": it, "out": x["out"]} for it, x in srs]})
+        recs.append({"ev": "done", "id": cid})
+    ncases = len(recs) // 2
+    nchunks = 3 if quick else NPROC
+    t0 = time.time()
+    files = split_trace_files(recs, wd, "c05check", max_events=max(200, 2 * math.ceil(ncases / nchunks)))
+    viols, consumed, states, infos = validate(files, wd, nchunks, QUICK_JVM if quick else None)
+    V.coverage.setdefault("phase_s", {})["tlc_judging_real_outputs"] = round(time.time() - t0, 1)
+    if consumed != len(recs):
+        raise ToolError(f"WindowCheck consumed {consumed} of {len(recs)} records")
+    V.coverage["states"] += states
+    V.coverage["transitions"] += states
+    V.coverage["traces_validated_against_impl"] += ncases
+    cnt = V.coverage.setdefault("window_iteration_cases", {})
+    for cid in solos:
+        k = f"{by_id[cid]['kind']}/{by_id[cid]['path']}"
+        cnt[k] = cnt.get(k, 0) + 1
+    V.coverage["window_runs_on_iteration_alone"] = sum(len(v) for v in solos.values())
+    for v in viols:
+        if v.get("prop") != "C05":
+            continue
+        c = by_id.get(v.get("job"))
+        V.add_violation(v, replay={"case": c, "real": v.get("extra", {}).get("out"),
+                                   "alone": v.get("extra", {}).get("solo")})
+    if recs:
+        V.sample({"window_case": recs[0]["id"], "window": recs[0]["kind"], "iterations_alone": len(recs[0]["solo"])})
